@@ -205,6 +205,10 @@ def corpus():
         'c 0 6,0', 'va 8 1,0,0,1 -', 'rc 8 1,0,0,1', 'va 8 1,3,0,1 -', 'rc 8 1,3,0,1',
         'va 6 1,0,0,1 1:3,3:0,0:1', 'rg 6 1,0,0,1 1:3,3:0,0:1', 'act'], tags=('hand-made',))
 
+    # wrong entry point for the causal type: verify_all_causes on a singleton (Err), verify_single_cause on wrappers (panics:
+    # the wrapper has no causal function) — error paths that must leave every activation flag alone
+    yield Case('ctx -', ['s 0 p', 'va 0 1,1 -', 'act', 'vs 0 1', 'va 0 1 -', 'act', 'c 1 0', 'vs 1 1', 'act',
+                         's 2 p', 'g 3 0,2 0-1 0', 'vs 4 1', 'act'], tags=('hand-made', 'wrong-entry-point'))
 
 def generate(rng, tier):
     n = 260 if tier == 'quick' else 30000
